@@ -34,16 +34,24 @@ IGNORED_KANI_CLASSES = [
 
 
 def sh(cmd, cwd=None, timeout=None, env=None):
+    """run a command in its own process group; on timeout kill the whole group (verus->z3, cargo->kani->cbmc)"""
+    import signal
     t0 = time.time()
+    p = subprocess.Popen(cmd, cwd=cwd, shell=isinstance(cmd, str), stdout=subprocess.PIPE, stderr=subprocess.PIPE, env=env,
+                         text=True, errors="replace", start_new_session=True)
     try:
-        p = subprocess.run(cmd, cwd=cwd, shell=isinstance(cmd, str), stdout=subprocess.PIPE, stderr=subprocess.PIPE,
-                           timeout=timeout, env=env, text=True, errors="replace")
-        return p.returncode, p.stdout, p.stderr, time.time() - t0
-    except subprocess.TimeoutExpired as e:
-        subprocess.run("pkill -9 -f 'z3 ' >/dev/null 2>&1; true", shell=True)
-        out = e.stdout.decode(errors="replace") if isinstance(e.stdout, bytes) else (e.stdout or "")
-        err = e.stderr.decode(errors="replace") if isinstance(e.stderr, bytes) else (e.stderr or "")
-        return -9, out, err, time.time() - t0
+        out, err = p.communicate(timeout=timeout)
+        return p.returncode, out, err, time.time() - t0
+    except subprocess.TimeoutExpired:
+        try:
+            os.killpg(p.pid, signal.SIGKILL)
+        except ProcessLookupError:
+            pass
+        try:
+            out, err = p.communicate(timeout=20)
+        except Exception:
+            out, err = "", ""
+        return -9, out or "", err or "", time.time() - t0
 
 
 class Undecided(Exception):
@@ -82,23 +90,36 @@ def run_verus_unit(unit, workdir, tier, seed):
         for fb in mod.get("function-breakdown", []):
             name = fb["function"]
             name = re.sub(r"^[^:]+::", "", name)  # drop crate name
-            funcs[name] = {"success": bool(fb.get("success")), "us": fb.get("time-micros", 0), "mode": fb.get("mode:", ""),
-                           "errors": []}
+            name = re.sub(r"^(code|spec)::", "", name)
+            if fb.get("mode:") == "spec":
+                continue
+            k, n_ = name, 1
+            while k in funcs:
+                n_ += 1
+                k = "%s#%d" % (name, n_)
+            funcs[k] = {"success": bool(fb.get("success")), "us": fb.get("time-micros", 0), "mode": fb.get("mode:", ""),
+                        "errors": []}
     # diagnostics -> function by generated line
     gen_lines = open(gen).read().split("\n")
-    diags = parse_verus_diags(err)
+    diags, foreign = split_foreign(parse_verus_diags(err), gen)
     for d in diags:
         fn = enclosing_fn(gen_lines, d["line"])
         d["function"] = fn
         # match to a breakdown entry by suffix
-        key = next((k for k in funcs if k.split("::")[-1] == fn and not funcs[k]["success"]), None)
+        key = next((k for k in funcs if re.sub(r"#\d+$", "", k).split("::")[-1] == fn and not funcs[k]["success"] and not funcs[k]["errors"]), None)
         if key is None:
-            key = next((k for k in funcs if k.split("::")[-1] == fn), None)
+            key = next((k for k in funcs if re.sub(r"#\d+$", "", k).split("::")[-1] == fn and not funcs[k]["success"]), None)
+        if key is None:
+            key = next((k for k in funcs if re.sub(r"#\d+$", "", k).split("::")[-1] == fn), None)
         if key is not None:
             funcs[key]["errors"].append(d)
             funcs[key]["success"] = False
         else:
             funcs.setdefault("?" + str(fn), {"success": False, "us": 0, "mode": "", "errors": []})["errors"].append(d)
+    # diagnostics located in vstd (e.g. an operator-trait postcondition): attach to failed functions that have none
+    for k, f in funcs.items():
+        if not f["success"] and not f["errors"] and foreign:
+            f["errors"] = foreign[:3]
     # rlimit / timeouts inside verus are reported as errors with specific text
     for k, f in funcs.items():
         for d in f["errors"]:
@@ -123,9 +144,17 @@ def parse_verus_diags(err):
             m = re.match(r"^\s*--> (.*?):(\d+):(\d+)", ln)
             if m and cur["line"] is None:
                 cur["line"] = int(m.group(2))
+                cur["file"] = m.group(1)
     for d in diags:
         d["text"] = "\n".join(d["text"][:14])
     return [d for d in diags if d["line"] is not None]
+
+
+def split_foreign(diags, gen):
+    base = os.path.basename(gen)
+    own = [d for d in diags if os.path.basename(d.get("file", "")) == base]
+    foreign = [d for d in diags if os.path.basename(d.get("file", "")) != base]
+    return own, foreign
 
 
 def enclosing_fn(lines, line):
@@ -146,6 +175,7 @@ class KaniSession:
         self.crate = os.path.join(self.dir, "crate")
         self.keep = keep
         self.prepared = False
+        self.harness_timeout = 600
 
     def cleanup(self):
         if not self.keep:
@@ -170,7 +200,7 @@ class KaniSession:
             dst = os.path.join(self.crate, "src", "verif_kani_" + fn)
             shutil.copy(os.path.join(hdir, fn), dst)
             with open(src, "a") as f:
-                f.write('\n#[cfg(kani)]\n#[path = "verif_kani_%s"]\nmod verif_kani;\n' % fn)
+                f.write('\n#[cfg(kani)]\n#[path = "verif_kani_%s"]\npub(crate) mod verif_kani;\n' % fn)
             self.mounted.append(mod)
         # contract attributes spliced onto the real functions (kani/contracts.json)
         cpath = os.path.join(VERIF, "kani", "contracts.json")
@@ -207,7 +237,8 @@ class KaniSession:
         """run the named harnesses (exact names) in parallel; returns {harness: result}"""
         if not self.prepared:
             self.prepare()
-        cmd = ["cargo", "kani", "-Z", "function-contracts", "-Z", "stubbing", "-j", str(jobs), "--output-format", "terse"]
+        cmd = ["cargo", "kani", "-Z", "function-contracts", "-Z", "stubbing", "-Z", "unstable-options",
+               "--harness-timeout", "%ds" % self.harness_timeout, "-j", str(jobs), "--output-format", "terse"]
         cmd += list(extra)
         for h in harnesses:
             cmd += ["--exact", "--harness", h] if False else ["--harness", h]
@@ -285,6 +316,9 @@ def parse_kani_terse(out):
         if m:
             cur["status"] = m.group(1)
             cur["status_note"] = m.group(2).strip()
+            continue
+        if ln.startswith("CBMC timed out") or "CBMC failed" == ln.strip():
+            cur["cbmc_abort"] = True
             continue
         m = re.match(r"^Verification Time: ([\d.]+)s", ln)
         if m:
@@ -386,11 +420,17 @@ def main():
                                  "dropped_attrs": log["dropped_attrs"], "spliced_clauses": log["spliced_clauses"],
                                  "spliced_loop_clauses": log["spliced_loop_clauses"], "rehomed": log.get("rehomed", []),
                                  "extracted_fns": len(log["fns"]), "verus_verified_queries": r["verified"]})
-            extracted = {f["fn"].split("::")[-1]: f for f in log["fns"]}
+            extracted = {}
+            for f in log["fns"]:
+                k, n_ = f["qual"], 1
+                while k in extracted:
+                    n_ += 1
+                    k = "%s#%d" % (f["qual"], n_)
+                extracted[k] = f
             matched = 0
             canary_ok = None
             for name, f in sorted(r["functions"].items()):
-                short = name.split("::")[-1]
+                short = name
                 if short == "canary_must_fail":
                     canary_ok = not f["success"]
                     continue
@@ -404,13 +444,14 @@ def main():
                       "detail": [d["text"] for d in f["errors"]][:6]}
                 if short in extracted:
                     ob["repo"] = "%s:%d-%d" % (extracted[short]["file"], extracted[short]["lines"][0], extracted[short]["lines"][1])
+                    ob["contract"] = [c.strip() for c in extracted[short]["contract"]]
                     fn_under_contract.append("%s (%s)" % (extracted[short]["fn"], ob["repo"]))
                 obligations.append(ob)
             if canary_ok is False:
                 undecided.append("verus %s: the canary `ensures false` verified -- the unit's axioms are inconsistent" % unit)
             if canary_ok is None and u.get("canary", True):
                 undecided.append("verus %s: canary lemma missing from output" % unit)
-            missing = [p for p in u.get("must_have", []) if not any(re.fullmatch(p, n.split("::")[-1]) for n in r["functions"])]
+            missing = [p for p in u.get("must_have", []) if not any(re.fullmatch(p, n) for n in r["functions"])]
             if missing:
                 undecided.append("verus %s: expected obligations missing (vacuity guard): %s" % (unit, missing))
             if matched == 0:
@@ -479,7 +520,8 @@ def main():
             "bounded_harnesses": bounded,
             "extraction": extract_summ,
             "samples": [{"id": o["id"], "kind": o["kind"], "status": o["status"], "solver_s": round(o.get("solver_s") or 0, 3),
-                         **({"repo": o["repo"]} if "repo" in o else {}), **({"checks": o["checks"]} if "checks" in o else {})}
+                         **({"repo": o["repo"]} if "repo" in o else {}), **({"checks": o["checks"]} if "checks" in o else {}),
+                         **({"contract": o["contract"]} if o.get("contract") else {})}
                         for o in obligations],
             "undecided": undecided,
             "known_findings": [o["id"] for o, _ in known] if obligations else [],
@@ -516,6 +558,10 @@ def classify_kani(h, meta, r):
     ignored = len(r["failed_checks"]) - len(real_fail)
     ob = {"id": "kani:" + h, "engine": "kani/cbmc", "kind": "contract" if meta["contract"] else ("bounded(unwind=%d)" % meta["unwind"] if meta["unwind"] else "complete"),
           "solver_s": r["time"] or 0, "checks": r["checks"] + r["covers"], "detail": []}
+    if r.get("cbmc_abort"):
+        ob["status"] = "undecided"
+        ob["detail"] = ["CBMC timed out or aborted (per-harness limit)"]
+        return ob
     if meta["should_panic"]:
         # must panic on every path: the cover after the call is unreachable
         if r["status"] == "SUCCESSFUL" and r["covers_sat"] == 0 and r["covers"] >= 1:
